@@ -8,6 +8,10 @@ import re
 HERE = os.path.dirname(os.path.dirname(os.path.abspath(__file__)))
 # was the check, as first built, strong enough?  (what had to be added when it was not)
 NOTE = {
+    "C03e": "no: C03's harnesses are one-step; the registered C10 quick check reports it", "C04d": "no (C04); the registered C13 quick check reports the stale .mh_sequences entry",
+    "C07e": "see check_result.json", "C08d": "no: `history` job added (meaning must not depend on earlier commands)", "C10d": "yes (registered C06 quick check: answered only by the watchdog)",
+    "C11d": "no: would have been masked by the recorded pack finding; reason made specific (`+completed`)", "C12e": "no: `startup_step` added", "C14d": "yes", "C16d": "yes",
+    "C17d": "no: `rename_step +recreate` added", "C18e": "no: `pwfile_reload_step` added", "C19e": "no: front end chained into the user process under one limit", "C20e": "yes",
     "C01-": "no: C01's own epochs are sequential and see only a refused-vs-accepted difference, which the property allows; the interleaving is C10's. The C10 pair stored \\Seen (already set everywhere) so both outcomes looked alike - it now stores \\Answered",
     "C02-": "yes", "C03-": "yes (pack driven directly from a symbolic gapped state)",
     "C04-": "no: `store_seq_step` (two STOREs by others before the observer's NOOP) added",
@@ -46,6 +50,6 @@ for d in sorted(os.listdir(f"{HERE}/seeded")):
     cells = []
     for c in res.get("checks", []):
         vs = [re.search(r"\((.*)\)$", v).group(1) for v in c["violations"]]
-        cells.append(f"`{c['command']}` exit {c['exit']} ({c['wall_s']:.0f} s)" + (": " + "; ".join(f"`{v}`" for v in vs[:2]) if vs else ""))
-    key = d[:4] if d[3] in "bc" else d[:3] + "-"
+        cells.append(f"`{c['command']}` exit {c['exit']} ({c.get('wall_s', 0):.0f} s)" + (": " + "; ".join(f"`{v}`" for v in vs[:2]) if vs else ""))
+    key = d[:4] if d[3] in "bcde" else d[:3] + "-"
     print(f"| {d} | {first_para(meta.get('needs_to_manifest', ''))} | {'ok' if ver.get('seed_ok') else 'NOT VERIFIED'} | {'<br>'.join(cells) or 'not run'} | {NOTE.get(key, '')} |")
